@@ -95,7 +95,7 @@ func (s *Server) AlphabetIndex() int {
 }
 
 func (s *Server) voteForFSChainValidator(ctx context.Context, validators keys.PublicKeys, trigger *util.Uint256) error {
-	index := s.InnerRingIndex()
+	index := s.AlphabetIndex()
 	if index < 0 || index >= len(s.contracts.alphabet) {
 		s.log.Info("ignore validator vote: node not in alphabet range")
 
